@@ -23,7 +23,7 @@ POSITIONAL = ('add', 'pop_at', 'sort', 'reverse')
 
 def fresh(key):
     """An equal but distinct string object (CPython shares 0- and 1-character strings, so keys have two or more)."""
-    return bytes(key, 'utf-8').decode('utf-8') if len(key) > 1 else key
+    return bytes(key, 'utf-8').decode('utf-8') if isinstance(key, str) and len(key) > 1 else key
 
 
 def canon(v):
@@ -43,7 +43,8 @@ def canon_items(items):
 EQ_FAMILY = [1, True, 1.0, 0, False, 0.0]      # equal-but-different values (drawn by index)
 
 
-SORT_KEYS = {'parity': lambda k: (ord(k[0]) if k else 0) % 2, 'const': lambda k: 0}
+NUM_KEYS = [3, 2.5, 1, 0.5, 7, 0, 4.25, 10, -1, 6.5] + [20 + i for i in range(40)]
+SORT_KEYS = {'parity': lambda k: (int(k * 2) if not isinstance(k, str) else (ord(k[0]) if k else 0)) % 2, 'const': lambda k: 0}
 
 
 class Refuser(object):
@@ -117,6 +118,9 @@ class C16(BaseCheck):
         if cls in ('sd', 'mo') and k.random() < 0.3:
             case['falsy_key'] = True       # the empty string is a perfectly good key (and a falsy one)
             keys = [''] + keys[1:]
+        elif cls in ('sd', 'mo') and k.random() < 0.2:
+            case['numeric_keys'] = True    # keys of several mutually comparable types: ints and floats (0 is falsy, too)
+            keys = NUM_KEYS[:nkeys]
         if cls in ('sd', 'mo'):
             case['validator'] = k.choice([None, None, {'mod': 5, 'rem': 2}, {'mod': 3, 'rem': 0}])
             case['init_as'] = k.choice(['pairs', 'dict', 'none'])
@@ -507,6 +511,8 @@ class C16(BaseCheck):
         keys = KEYS[:case['nkeys']]
         if case.get('falsy_key'):
             keys = [''] + keys[1:]
+        elif case.get('numeric_keys'):
+            keys = NUM_KEYS[:case['nkeys']]
         items = []
         for k_, v_ in case.get('init', []):
             hit = [p for p in items if p[0] == k_]
